@@ -264,6 +264,11 @@ def fam_accessors(tier: str, rng: random.Random) -> Iterator[dict]:
         combos = list(itertools.product(opts, repeat=n))
         if tier == "quick" and len(combos) > 110:
             combos = rng.sample(combos, 110)
+        if shape in ("chain2", "chain3"):
+            # the subclass overrides only the getter (@Base.f.getter): the setter object is shared with the base
+            shared = [((0, 0, 0), "share"), ((0, 1, 0), "share"), ((1, 0, 0), "share")]
+            roots = [o for o in opts if o is not None]
+            combos = combos + [tuple([r] + [rng.choice(shared) for _ in range(n - 1)]) for r in roots for _ in range(3)]
         for combo in combos:
             for rootinv in ([], ["CALL"]):
                 b = Builder()
@@ -274,7 +279,9 @@ def fam_accessors(tier: str, rng: random.Random) -> Iterator[dict]:
                     if o is not None:
                         g, st = o
                         members.append({"name": "f", "kind": "prop", "decos": stack(b, g[0], g[1], g[2], (), snap_name=k)})
-                        if st is None:
+                        if st == "share":
+                            members.append({"name": "fset", "kind": "pset", "decos": [], "share": 1})
+                        elif st is None:
                             members.append({"name": "fset", "kind": "none", "decos": []})
                         else:
                             members.append({"name": "fset", "kind": "pset",
